@@ -15,6 +15,7 @@ THEOREMS = [
     "Ural.Props.C20.ensure_keeps_rest",
     "Ural.Props.C20.force_keeps_rest",
     "Ural.Props.C20.force_eq_ensure_strip_partial",
+    "Ural.Props.C20.force_eq_ensure_strip_iff",
     "Ural.Props.C20.force_eq_ensure_strip_counterexample",
     "Ural.Props.C20.fullForceEqEnsureStrip_false",
     "Ural.Props.C20.protocol_spelling_irrelevant",
@@ -25,10 +26,15 @@ THEOREMS = [
     "Ural.Props.C20.format_query_roundtrip",
     "Ural.Props.C20.format_url_shape",
     "Ural.Props.C20.format_url_query_fragment",
+    "Ural.Props.C20.format_url_urlsplit_roundtrip",
     "Ural.Props.C20.formatter_format_spec",
     "Ural.Props.C20.add_query_argument_appends_one",
     "Ural.Props.C20.add_then_lookup",
     "Ural.Props.C20.add_then_get",
+    "Ural.Props.C20.add_then_get_decodes",
+    "Ural.Props.C20.add_then_get_raw",
+    "Ural.Props.C20.add_then_get_raw_fails_on_reserved",
+    "Ural.Props.C20.fullRawReadBack_false",
     "Ural.urlsplit_query_fragment",
     "Ural.Props.C20.pathsplit_spec",
     "Ural.Props.C20.urlpathsplit_spec",
@@ -71,17 +77,29 @@ ASSUMPTIONS = [
     "format_url: the query/fragment laws are demanded structurally (what is appended after base+path+ext) for every base; "
     "through urlsplit only when base, path and ext contain no '?' or '#'",
     "add_query_argument read-back is at wire level: get_query_argument(result, quote(key)) == quote(str(value)); "
-    "get_query_argument does not unquote (a key that quote() changes is not found under its raw spelling)",
+    "get_query_argument does not unquote (a key that quote() changes is not found under its raw spelling); the raw read-back "
+    "get_query_argument(result, key) == str(value) is demanded (oracle) and proved (add_then_get_raw) only when key and str(value) "
+    "consist of A-Za-z0-9_.-~/",
     "urls given to get_query_argument/urlpathsplit contain no TAB/CR/LF and no '[' ']' (urlsplit removes the former and may raise on the latter); "
     "strings contain no lone surrogates",
     "a bare empty key ('' with True/None) has the empty encoding: add_query_argument on it and the urlsplit view of format_url on it alone are not judged",
     "format_arg_value callbacks and URLFormatter.ext defaults (stored but never read by the code) are not exercised",
 ]
 UNPROVED = (
-    "force_protocol(u,p) == ensure_protocol(strip_protocol(u),p) is proved only when strip_protocol(u) has no protocol "
-    "(force_eq_ensure_strip_partial); on the excluded region it is false (KF-C20-1, witness a://b://c proved in Lean and replayed "
-    "on the implementation). URLFormatter: proved to be format_url on the merged parameters; subclasses overriding format_arg_value are "
-    "explored by nothing. sorted() of dict items is modelled (insertion sort by key) and compared, the laws are proved for the ordered item list."
+    "force_protocol(u,p) == ensure_protocol(strip_protocol(u),p) holds exactly when strip_protocol(u) has no protocol "
+    "(force_eq_ensure_strip_iff; force_eq_ensure_strip_partial is the 'if' half); on the excluded region it is false (KF-C20-1, "
+    "witness a://b://c proved in Lean and replayed on the implementation). "
+    "READ-BACK CLAUSE ('an item which get_query_argument reads back when the key is new'): proved under a READING, at wire level - "
+    "add_then_get: get_query_argument(add_query_argument(u,k,v), quote(k)) == quote(str(v)) (lookup under the QUOTED key, returning the "
+    "QUOTED value); add_then_get_decodes: unquote of that value is v. With the RAW key the clause is proved only for keys and values "
+    "made of unreserved characters A-Za-z0-9_.-~/ (add_then_get_raw); for keys / values containing reserved characters (& = # ? % + space, "
+    "non-ASCII - the very ones the quantifier names) the raw read-back is FALSE in the model and in the code "
+    "(add_then_get_raw_fails_on_reserved, fullRawReadBack_false: get_query_argument(add_query_argument('http://a.com/p?x=1#f','k&','a b'),'k&') "
+    "is None), because add_query_argument quotes and get_query_argument does not unquote; get_query_argument has no docstring and is not in "
+    "the README, so this is recorded as a reading, not as a defect. "
+    "URLFormatter: formatter_format_spec restates the model's merge of defaults (format_url on the merged parameters); its content is the "
+    "model-vs-code correspondence; subclasses overriding format_arg_value are not modelled and explored by nothing. "
+    "sorted() of dict items is modelled (insertion sort by key) and compared, the laws are proved for the ordered item list."
 )
 
 # the property's own notion of "has a protocol" (independent of ural.patterns): an alphabetic protocol
@@ -603,6 +621,13 @@ def _parts(u):
     return pre, (query if q else None), (frag if h else None)
 
 
+_UNRESERVED = set("ABCDEFGHIJKLMNOPQRSTUVWXYZabcdefghijklmnopqrstuvwxyz0123456789_.-~/")
+
+
+def _unreserved(x):
+    return all(ch in _UNRESERVED for ch in x)
+
+
 def _oracle_aqa(case):
     from ural.utils import add_query_argument, get_query_argument
 
@@ -636,6 +661,15 @@ def _oracle_aqa(case):
         exp = True if bare else (_quote(str(v)) if qt else str(v))
         if g != exp or type(g) is not type(exp):
             return "get_query_argument(%r,%r)=%r, expected %r" % (r, name, g, exp)
+        # raw read-back (add_then_get_raw): key and value of unreserved characters come back as given
+        if qt and _unreserved(k) and (bare or _unreserved(str(v))):
+            try:
+                g2 = get_query_argument(r, k)
+            except Exception as e:  # noqa
+                return "get_query_argument(%r) raised %s" % (r, type(e).__name__)
+            exp2 = True if bare else str(v)
+            if g2 != exp2 or type(g2) is not type(exp2):
+                return "raw read-back: get_query_argument(%r,%r)=%r, expected %r" % (r, k, g2, exp2)
     return None
 
 
